@@ -9,10 +9,12 @@ git -C /repo worktree add -q --detach $W HEAD || exit 2
 V=$(mktemp -d /tmp/srcvXXXX); cp /verif/known_findings.json $V/; mkdir -p $V/checker; ln -s /verif/checker/fixtures $V/checker/fixtures
 applies=true; caught=""; rules=""
 if git -C $W apply $d/patch.diff 2>/dev/null; then
-  for p in $(seq -f 'C%02g' 1 20); do
-    if /verif/bin/hpfscheck -repo $W -verif $V -property $p > $V/chk_$p.log 2>&1; then :; else caught="$caught $p"; fi
-  done
-  rules=$(grep -ho 'rule R[0-9.]* violated' $V/chk_$prop.log | sort -u | sed 's/rule \(.*\) violated/\1/' | tr '\n' ' ')
+  # one process for all twenty properties (programs loaded once); RESULT lines give each property's exit code
+  /verif/bin/hpfscheck -repo $W -verif $V -properties all > $V/chk_all.log 2>&1
+  caught=$(grep -a '^RESULT property=' $V/chk_all.log | grep -v 'rc=0$' | sed 's/RESULT property=\(C[0-9]*\) .*/\1/' | tr '\n' ' ')
+  [ "$(grep -ac '^RESULT property=' $V/chk_all.log)" = 20 ] || caught="CHECKER-DID-NOT-FINISH"
+  nn=${prop#C}
+  rules=$(grep -aho "rule R$nn\.[0-9]* violated" $V/chk_all.log | sort -u | sed 's/rule \(.*\) violated/\1/' | tr '\n' ' ')
 else applies=false; fi
 python3 - "$d/meta.json" "$prop" "$applies" "$caught" "$rules" "$(git -C /repo log --format=%h -1)" <<'P'
 import json,sys
